@@ -11,14 +11,23 @@ sqrt enclosures), then
    length + penalty·bends as an upper bound of the optimum: SPECFAIL if the implementation's cost is
    certainly larger by more than 1e-6.  The lower bound (that the oracle path is optimal) is only
    compared (DIVERGE), not certified.
+ * penalty > 0, classification of a "not minimal" failure: the harness dumps libavoid's OWN search space (vertices
+   with their shape neighbours, enabled visibility edges) and, for the failing connector, a certificate for the
+   optimum of length + penalty·bends over the admissible routes of that space ((vertex, previous vertex) states,
+   moves filtered by the `validateBendPoint` model, collinear triples charged no bend as in `cost()`), verified by
+   `Check.OwnGraph.checkOwn` (sound by Props/C04Own.checkOwn_sound).  Route dearer than the certified optimum of
+   its own space ⇒ kind `search-not-minimal` (the A* search failed; strict).  Route optimal in its own space but
+   dearer than the geometric optimum ⇒ the known kind `not-minimal` (graph pruned for Euclidean shortest paths).
 A rejected certificate is a DIVERGE (the harness oracle, not libavoid, is then wrong).
 -/
 import Driver.Proto
 import AdaptaVerif.Check.Potential
+import AdaptaVerif.Check.OwnGraph
 namespace Driver.C04
 open Driver AdaptaVerif.Num
 open AdaptaVerif.Model.Geometry (Pt area2)
 open AdaptaVerif.Check.Route AdaptaVerif.Check.Potential
+open AdaptaVerif.Check.OwnGraph (OV mkSpace movesOf potTable checkOwn)
 
 def tol : Rat := 1 / 1000000
 def sqrtBits : Nat := 44
@@ -58,6 +67,44 @@ def bends : List Pt → Nat
 /-- symmetric closure of the edges leaving vertex i -/
 def bothWays (es : List WEdge) : List WEdge :=
   es ++ es.map fun e => { e with u := e.v, v := e.u }
+
+
+/-- the dumped own search space of the case: vertices and undirected enabled edges -/
+def parseOwn (c : Case) : Option (Array OV × List (Nat × Nat)) := do
+  let ovs ← (c.get "ov").mapM fun l => do
+    let x ← num? (l[1]?.getD ""); let y ← num? (l[2]?.getD "")
+    let pr := int! (l[3]?.getD "-1"); let nx := int! (l[4]?.getD "-1")
+    pure ({ p := ⟨x, y⟩, prev := if pr < 0 then none else some pr.toNat, next := if nx < 0 then none else some nx.toNat } : OV)
+  let es := (c.get "oe").toList.map fun l => (nat! (l[0]?.getD "0"), nat! (l[1]?.getD "0"))
+  pure (ovs, es)
+
+/-- certified enclosure [lo, hi] of the optimum over the admissible routes of libavoid's own search space for
+    connector `id`, from the harness certificate; `none` if there is none or it is rejected -/
+def ownOptimum (c : Case) (id : Nat) (penalty : Rat) (src dst : Pt) : Except String (Rat × Rat) := do
+  let some (ovs, und) := parseOwn c | throw "unparsable own-graph dump"
+  let some ol := (c.get "own").find? (fun w => nat! w[0]! == id) | throw "no own-graph certificate"
+  let s := nat! ol[1]!; let t := nat! ol[2]!
+  let n := ovs.size
+  if !(s < n && t < n) then throw "own-graph endpoints out of range"
+  if (ovs[s]!).p.x != src.x || (ovs[s]!).p.y != src.y || (ovs[t]!).p.x != dst.x || (ovs[t]!).p.y != dst.y then
+    throw "own-graph endpoints are not the connector's"
+  if und.any (fun uv => !(uv.1 < n && uv.2 < n)) then throw "own-graph edge out of range"
+  -- moves: never into a connector endpoint other than the target (endpoints have no shape neighbours)
+  let into : Nat → Bool := fun w => w == t || (ovs[w]!).prev.isSome
+  let S := mkSpace ovs (movesOf ovs sqrtBits into und) penalty
+  let some wl := (c.get "owit").find? (fun w => nat! w[0]! == id) | throw "no own-graph witness"
+  let wit : List Nat := (wl.extract 2 wl.size).toList.map nat!
+  let some pl := (c.get "opot").find? (fun w => nat! w[0]! == id) | throw "no own-graph potential"
+  let some dflt := num? (pl[1]?.getD "") | throw "unparsable own-graph potential"
+  let cnt := nat! (pl[2]?.getD "0")
+  let mut tbl : Array Rat := Array.replicate (n * (n + 1)) dflt
+  for i in [0:cnt] do
+    let v := nat! (pl[3 + 3*i]?.getD "0"); let p := nat! (pl[4 + 3*i]?.getD "0")
+    let some x := num? (pl[5 + 3*i]?.getD "") | throw "unparsable own-graph potential"
+    if v < n && p ≤ n then tbl := tbl.set! (v * (n + 1) + p) x
+  match checkOwn S (potTable n tbl) s t wit with
+  | some r => pure r
+  | none => throw "own-graph certificate rejected (potential infeasible on the own search space, or witness not an admissible route of it)"
 
 def run1 (c : Case) : CaseResult := Id.run do
   if c.tag == "empty" then return { verdict := .ok, nontrivial := false }
@@ -127,7 +174,22 @@ def run1 (c : Case) : CaseResult := Id.run do
               -- edit histories: a route that detours although the straight segment is free (certified) is not
               -- the known penalty finding (which is about trading bends against length)
               else if c.tag.startsWith "edit-history" && wit.length == 2 then "history-not-minimal" else "not-minimal"
-            fails := (0, .specfail s!"{pre} conn {id} (penalty {dec penalty}): route cost length+penalty·bends ≥ {dec implCostLo} ({nb} bends) but a certified obstacle-free path of cost ≤ {dec witCostHi} ({bends witPts} bends) exists") :: fails
+            let geo := s!"route cost length+penalty·bends ≥ {dec implCostLo} ({nb} bends) but a certified obstacle-free path of cost ≤ {dec witCostHi} ({bends witPts} bends) exists"
+            -- is the route at least the optimum of the space the search itself explores?
+            match ownOptimum c id penalty src dst with
+            | .error e =>
+              stats := bumpStats stats "ownCertMissing" 1
+              fails := (19, .diverge s!"conn {id} (penalty {dec penalty}): {geo}; not classified: {e}") :: fails
+            | .ok (olo, ohi) =>
+              stats := bumpStats stats "ownCertified" 1
+              if implCostLo > ohi + tol then
+                stats := bumpStats stats "searchNotMinimal" 1
+                fails := (0, .specfail s!"search-not-minimal conn {id} (penalty {dec penalty}): route cost ≥ {dec implCostLo} ({nb} bends) exceeds the certified optimum ∈ [{dec olo},{dec ohi}] of libavoid's own search space (its visibility graph, moves admitted by validateBendPoint): the A* search did not return the cheapest route it could reach; {geo}") :: fails
+              else if implCostHi < olo - tol then
+                fails := (18, .diverge s!"conn {id} (penalty {dec penalty}): route cost ≤ {dec implCostHi} is below the certified optimum ≥ {dec olo} of libavoid's own search space (route is not an admissible route of the dumped graph)") :: fails
+              else
+                stats := bumpStats stats "optimalInOwnGraph" 1
+                fails := (0, .specfail s!"{pre} conn {id} (penalty {dec penalty}): {geo}; the route is optimal in libavoid's own (pruned) search space, optimum ∈ [{dec olo},{dec ohi}]") :: fails
           else
             -- lower side: only compared with the oracle's (unverified) optimum
             let witCostLo := polylineLenLo sqrtBits (witPts.map fun p => (p.x, p.y)) + penalty * (bends witPts : Nat)
